@@ -8,6 +8,10 @@ fn usage() -> ! {
 }
 
 fn main() {
+    verif::sandbox::run_main(real_main)
+}
+
+fn real_main() -> i32 {
     let args: Vec<String> = std::env::args().collect();
     if args.len() < 2 {
         usage();
@@ -69,6 +73,9 @@ fn main() {
                 std::process::exit(2)
             };
             let json_mode = args.iter().any(|a| a == "--json");
+            if std::env::var("VERIF_LIMITS").is_ok() {
+                driver::set_limits();
+            }
             match driver::replay_file(check, &PathBuf::from(file), json_mode) {
                 Ok(out) => {
                     let (o, sig) = match &out.outcome {
@@ -91,6 +98,53 @@ fn main() {
                 }
             }
         }
+        "corpus-go" => {
+            // debugging aid: write the Go text of every corpus program to <dir>
+            let out = PathBuf::from(args.get(2).unwrap_or_else(|| usage()));
+            let _ = std::fs::create_dir_all(&out);
+            for c in verif::corpus::pipeline_cases() {
+                let r = verif::goml::compile_at(c.dir.join("main.gom"), &c.source);
+                let text = match r {
+                    verif::goml::CompileRes::Ok(_, t) => t,
+                    verif::goml::CompileRes::Err(e) => format!("ERR {:?}", verif::goml::diag_messages(e.diagnostics())),
+                    verif::goml::CompileRes::Panic(p) => format!("PANIC {}", p.message),
+                };
+                let _ = std::fs::write(out.join(format!("{}.go", c.name)), text);
+            }
+            for c in verif::corpus::project_cases() {
+                let src = std::fs::read_to_string(c.dir.join("main.gom")).unwrap_or_default();
+                let r = verif::goml::compile_at(c.dir.join("main.gom"), &src);
+                let text = match r {
+                    verif::goml::CompileRes::Ok(_, t) => t,
+                    verif::goml::CompileRes::Err(e) => format!("ERR {:?}", verif::goml::diag_messages(e.diagnostics())),
+                    verif::goml::CompileRes::Panic(p) => format!("PANIC {}", p.message),
+                };
+                let _ = std::fs::write(out.join(format!("{}.go", c.name)), text);
+            }
+        }
+        "compile" => {
+            // debugging aid: verif compile <file.gom | project dir> [--go]
+            let p = PathBuf::from(args.get(2).unwrap_or_else(|| usage()));
+            let path = if p.is_dir() { p.join("main.gom") } else { p };
+            let src = std::fs::read_to_string(&path).unwrap_or_default();
+            let t = std::time::Instant::now();
+            let r = verif::goml::compile_at(path.clone(), &src);
+            eprintln!("stage={} in {:?}", r.stage(), t.elapsed());
+            match r {
+                verif::goml::CompileRes::Ok(_, text) => {
+                    if args.iter().any(|a| a == "--go") {
+                        println!("{text}");
+                    }
+                }
+                verif::goml::CompileRes::Err(e) => {
+                    for m in verif::goml::diag_messages(e.diagnostics()) {
+                        eprintln!("{m}");
+                    }
+                }
+                verif::goml::CompileRes::Panic(p) => eprintln!("PANIC {}:{} {}\nsig {}", p.file, p.line, p.message, p.signature()),
+            }
+        }
         _ => usage(),
     }
+    0
 }
